@@ -39,6 +39,32 @@ def check_c19(prog, rep, tier, cfg):
             rep.check("@Set.key" in a[0] or ".key" in a[0], R, "override(key,val)", "set_override is not called with the item's key/value: %s" % a)
             rep.check(question_propagated(b, so[0]), R, "override-error-propagated", "an invalid -C override does not propagate as an error")
             rep.check(any(so[0].bb in L for L in b.loops().values()), R, "override-in-loop-over-all-items", "set_override is no longer applied inside the loop over all overrides")
+            # every Set item reaches set_override: no way from the Set arm back to the loop header around it
+            from progress import discr_source
+            loops = [(h, L) for h, L in b.loops().items() if so[0].bb in L]
+            set_arms = []
+            for bb in sorted(b.reachable()):
+                t = b.blocks[bb]["term"]
+                key = discr_source(b, bb) if t["k"] == "switch" else None
+                if key and loops and bb in loops[0][1]:
+                    adt = None
+                    for st in b.blocks[bb]["stmts"]:
+                        if st["k"] == "assign" and st["rv"]["k"] == "discr":
+                            adt = norm(st["rv"].get("adt", ""))
+                    if adt and adt.endswith("ConfigOverride"):
+                        for v, tgt in t["targets"]:
+                            if prog.variant_of(adt, v) == "Set":
+                                set_arms.append(tgt)
+                        if prog.variant_of(adt, -1) is None and not set_arms:
+                            set_arms.append(t["otherwise"])
+            okall = bool(loops) and bool(set_arms)
+            if okall:
+                h, L = loops[0]
+                for a in set_arms:
+                    if a != so[0].bb and b.can_reach_avoiding(a, {h}, {so[0].bb}):
+                        okall = False
+            rep.check(okall, R, "every-Set-item-is-applied", "a `-C key=value` item can be skipped: there is a path from the Set arm back to the loop header that avoids set_override (an override that is not layered lets the file's value win)",
+                      where=so[0].where(), instance={"set_arms": len(set_arms)})
         # order: file source before overrides before build
         bd = b.calls_to("config::builder::ConfigBuilder::build")
         td = b.calls_to("config::config::Config::try_deserialize")
@@ -307,6 +333,7 @@ def check_c15(prog, rep, tier, cfg):
                 muts.append((k, c.callee))
     rep.check(not muts, R, "cursor-code-calls-no-mutator", "cursor code calls token mutators: %s" % [(short(a), short(b)) for a, b in muts])
     cursor_independence(prog, rep, "C15.d")
+    cursor_measures_what_is_emitted(prog, rep, "C15.e")
 
 
 CURSOR_COLLECTION_OPS = {
@@ -386,6 +413,34 @@ def cursor_independence(prog, rep, R):
                 rep.check(ok, R, "complete-traversal:%s" % short(b.npath), "the loop over the cursors in %s %s" % (short(b.npath), why), where=c.where(), instance={"body": short(b.npath), "loop": "exits on exhaustion only"})
     rep.floor(R, "operations on cursor collections", n, 20)
     rep.ok(R, {"operations": sorted((x or "?").split("::")[-1] for x in seen)})
+
+
+def cursor_measures_what_is_emitted(prog, rep, R):
+    """C15.e — cursor arithmetic measures a token's leading whitespace the way it is emitted: the configured newline length may only be
+    used for tokens known not to be ignored (an ignored token's original whitespace is emitted verbatim, whatever line endings it has)."""
+    from panic import dominating_conditions
+    REC = "pasfmt_core::defaults::reconstructor::"
+    NL = REC + "DelphiLogicalLinesReconstructor::nl_len"
+    GETNL = "pasfmt_core::lang::ReconstructionSettings::get_newline_str"
+    sites = []
+    for b in prog.bodies.values():
+        if not b.npath.startswith(REC) and not b.npath.startswith("<" + REC):
+            continue
+        if "reconstruct::{closure" in b.npath or b.npath.endswith("::reconstruct"):
+            continue        # emission, not measuring
+        for c in b.calls():
+            if c.callee in (NL, GETNL) or c.target in (NL, GETNL):
+                if b.npath == NL:
+                    continue
+                sites.append(c)
+    rep.floor(R, "uses of the configured newline length in cursor code", len(sites), 1)
+    for c in sites:
+        b = c.body
+        conds = dominating_conditions(b, c.bb)
+        ok = any(x[0] == "call" and x[1].endswith("is_ignored") and x[3] is False for x in conds)
+        rep.check(ok, R, "newline-length-only-for-formatted-tokens:" + short(b.npath),
+                  "%s measures line breaks with the configured newline length without knowing that the token is not ignored — the whitespace of an ignored token is emitted as it was in the source" % short(b.npath),
+                  where=c.where(), instance={"body": short(b.npath), "guard": "is_ignored() == false"})
 
 
 def _dep_closure(body, l, seen=None):
